@@ -458,6 +458,48 @@ def rewrite_case(rng, sess: Session):
                 append_jsonl(name, r)
             path = os.path.join(d, name)
             before = [json.loads(l) for l in open(path, "rb").read().split(b"\n") if l] if os.path.exists(path) else []
+            if before and rng.random() < 0.4:
+                # the compaction's temp file accepts only part of each write (a short write, as under ENOSPC pressure or a
+                # signal): either the rewrite completes with every record, or it raises and leaves the old log
+                import clematis.io.atomic as A
+                real_open = open
+                chunk = rng.choice([1, 7, 100, 1000])
+
+                class _Short:
+                    def __init__(s_, f):
+                        s_._f = f
+
+                    def write(s_, data):
+                        return s_._f.write(bytes(data)[:chunk])
+
+                    def __enter__(s_):
+                        return s_
+
+                    def __exit__(s_, *a):
+                        s_._f.close()
+                        return False
+
+                    def __getattr__(s_, k):
+                        return getattr(s_._f, k)
+
+                def open_short(pth, mode="r", *a, **k):
+                    f = real_open(pth, mode, *a, **k)
+                    return _Short(f) if "w" in mode and "b" in mode else f
+
+                old_bytes = real_open(path, "rb").read()
+                raised = None
+                with patched(A, "open", open_short):
+                    try:
+                        rewrite_jsonl(name, before)
+                    except Exception as ex:
+                        raised = type(ex).__name__
+                sess.count("rewrites_under_short_writes")
+                now_bytes = real_open(path, "rb").read()
+                want = "".join(json.dumps(ref_normalise(name, r_, ci), ensure_ascii=False, sort_keys=True, separators=(",", ":")) + "\n" for r_ in before).encode("utf-8")
+                if now_bytes not in (old_bytes, want) or (raised is None and now_bytes != want):
+                    sess.violation("rewrite-under-short-writes-lost-or-tore-records", {"name": name, "n": len(recs), "ci": ci, "chunk": chunk},
+                                   {"raised": raised, "bytes_now": len(now_bytes), "bytes_complete": len(want), "bytes_old": len(old_bytes)})
+                    return
             rewrite_jsonl(name, before)
             b1 = open(path, "rb").read()
             try:
@@ -762,6 +804,7 @@ def main(tier: str, seed: int):
     sess.require("rotation_rounds", 200)
     sess.require("rotation_faults_fired:interrupt", 10)
     sess.require("scripted_histories", 12)
+    sess.require("rewrites_under_short_writes", 8)
     sess.require("scripted_rotations", 10)
     sess.finish()
 
